@@ -1195,3 +1195,12 @@ func TestC04Consts(t *testing.T) {
 	}
 	h.RunList(t, cases, c04CheckConst)
 }
+
+// ------------------------------------------------ the same checks, concurrently
+//
+// Four generated cases at a time, one goroutine each: the value oracles above
+// hold under concurrency exactly if the package keeps no hidden shared state
+// (h.RunPar).  No public API reaches field.BatchInvert today, so the
+// concurrency check of C18 cannot see it.
+func TestC04ParSqrt(t *testing.T) { h.RunPar(t, 4, c04GenSqrt, c04CheckSqrt) }
+func TestC04ParProg(t *testing.T) { h.RunPar(t, 4, c04GenProg, c04CheckProg) }
